@@ -106,6 +106,52 @@ impl Profile {
         Profile { g, per: vec![r1, r.clone(), r] }
     }
 
+    /// All dimensions plain except the listed ones: `per[k]` = [(dimension, values)] of record k.
+    pub fn custom(g: [Vec<u8>; NGDIMS], per: &[&[(usize, &[u8])]]) -> Profile {
+        let mut out = vec![];
+        for spec in per {
+            let mut r: [Vec<u8>; NDIMS] = Default::default();
+            for d in 0..NDIMS {
+                r[d] = vec![0];
+            }
+            for (d, vals) in spec.iter() {
+                r[*d] = vals.to_vec();
+            }
+            out.push(r);
+        }
+        Profile { g, per: out }
+    }
+
+    /// Records sharing an RRset: inheritance forms only.
+    pub fn rrset(n: usize) -> Profile {
+        if n >= 3 {
+            let first: &[(usize, &[u8])] = &[(D_OWNER, &[0, 1])];
+            let next: &[(usize, &[u8])] = &[(D_OWNER, &[0, 3]), (D_TTL, &[0, 1]), (D_CLASS, &[0, 1])];
+            let mut per = vec![first];
+            for _ in 1..n {
+                per.push(next);
+            }
+            return Profile::custom([vec![0], vec![0], vec![0]], &per);
+        }
+        let first: &[(usize, &[u8])] = &[(D_OWNER, &[0, 1]), (D_TTL, &[0, 1, 2]), (D_CLASS, &[0, 1])];
+        let next: &[(usize, &[u8])] = &[(D_OWNER, &[0, 1, 3]), (D_TTL, &[0, 1, 2]), (D_CLASS, &[0, 1]), (D_BLANK, &[0, 1])];
+        Profile::custom([vec![0], vec![0], vec![0, 1]], &[first, next])
+    }
+
+    /// One record of class CH / HS.
+    pub fn class_sweep() -> Profile {
+        let r: &[(usize, &[u8])] = &[(D_OWNER, &[0, 1]), (D_TTL, &[0, 1, 2]), (D_CLASS, &[0]), (D_ORDER, &[0, 1]), (D_SEP, &[0, 1]), (D_PARENS, &[0, 2])];
+        Profile::custom([vec![0, 1], vec![0], vec![0, 1]], &[r])
+    }
+
+    /// Files of four records: owner / TTL / class chains, `$ORIGIN` change before records 3 and 4.
+    pub fn chain4() -> Profile {
+        let r1: &[(usize, &[u8])] = &[(D_OWNER, &[0, 1, 2]), (D_TTL, &[0, 1, 2]), (D_CLASS, &[0, 1])];
+        let r2: &[(usize, &[u8])] = &[(D_OWNER, &[0, 1, 2, 3]), (D_TTL, &[0, 1, 2]), (D_CLASS, &[0, 1])];
+        let r3: &[(usize, &[u8])] = &[(D_ORIGIN, &[0, 2]), (D_OWNER, &[0, 1, 2, 3]), (D_TTL, &[0, 1, 2]), (D_CLASS, &[0, 1])];
+        Profile::custom([vec![0], vec![0], vec![0, 1]], &[r1, r2, r3, r3])
+    }
+
     pub fn describe(&self) -> Value {
         let mut per = vec![];
         for p in &self.per {
@@ -650,6 +696,9 @@ pub fn replay(w: &World, case: &Value, l: &mut Local) {
     let alpha: Vec<Entry> = match case["alphabet"].as_str().unwrap_or("") {
         "singles" => crate::alphabet::singles(),
         "chain" => crate::alphabet::chain_alphabet(),
+        "rrset" => crate::alphabet::rrset_alphabet(),
+        "class" => crate::alphabet::class_alphabet(),
+        "chain4" => crate::alphabet::chain4_alphabet(),
         _ => crate::alphabet::sub_alphabet(6, 6),
     };
     let idx: Vec<usize> = case["records"].as_array().map(|a| a.iter().map(|x| x.as_u64().unwrap() as usize).collect()).unwrap_or_default();
